@@ -72,7 +72,10 @@ def attr_case(draw):
         how = draw(st.sampled_from(["ctor_pol", "ctor_mag"])) if i == 0 else draw(st.sampled_from(["set_pol", "set_mag"]))
         mag = draw(gen.logfloat(-6, 6))
         v = draw(gen.excitation_vec(mag=1.0))
-        steps.append({"how": how, "value": [float(x * mag) for x in v]})
+        if i > 0 and draw(st.integers(0, 5)) == 0:
+            steps.append({"how": how, "value": None})  # documented: None = "not set"; both attributes then read None
+        else:
+            steps.append({"how": how, "value": [float(x * mag) for x in v]})
     return {"kind": "attr", "source": spec, "steps": steps}
 
 
@@ -259,8 +262,19 @@ def _run_attr(case, ctx):
     obj = None
     ctx.label(f"attr:{cls}")
     for i, stp in enumerate(case["steps"]):
-        v = np.asarray(stp["value"], dtype=float)
         how = stp["how"]
+        if stp["value"] is None:
+            # clearing through either attribute clears both (they describe one state)
+            ctx.label(f"attr_how:{how}_None")
+            r = build.call(setattr, obj, "polarization" if how == "set_pol" else "magnetization", None)
+            if not r.ok:
+                return [Violation({"sub": "setter_raised", "cls": cls, **exc_sig(r.exc)}, repr(r.exc)[:200])]
+            if obj.polarization is not None or obj.magnetization is not None:
+                out.append(Violation({"sub": "attr_None_inconsistent", "cls": cls, "how": how},
+                                     f"{cls} after {'polarization' if how == 'set_pol' else 'magnetization'} = None: polarization={obj.polarization!r} "
+                                     f"magnetization={obj.magnetization!r} (both must read None)"))
+            continue
+        v = np.asarray(stp["value"], dtype=float)
         ctx.label(f"attr_how:{how}")
         if how.startswith("ctor"):
             s2 = dict(spec)
